@@ -7,6 +7,7 @@ import (
 	"encoding/json"
 	"fmt"
 	"io"
+	"runtime"
 	"sync"
 	"time"
 
@@ -31,6 +32,21 @@ type recStream struct {
 }
 type handout struct {
 	off, n, seq int64
+	gid         int64 // goroutine that called Read (io.ReadFull runs in the caller's goroutine)
+}
+
+func goid() int64 {
+	var b [64]byte
+	n := runtime.Stack(b[:], false)
+	// "goroutine 123 [running]:"
+	var id int64
+	for _, c := range b[len("goroutine "):n] {
+		if c < '0' || c > '9' {
+			break
+		}
+		id = id*10 + int64(c-'0')
+	}
+	return id
 }
 
 func (s *recStream) byteAt(pos int64) byte {
@@ -61,7 +77,7 @@ func (s *recStream) Read(p []byte) (int, error) {
 	for i := range p {
 		p[i] = s.byteAt(s.next + int64(i))
 	}
-	s.log = append(s.log, handout{s.next, int64(len(p)), s.seq})
+	s.log = append(s.log, handout{s.next, int64(len(p)), s.seq, goid()})
 	s.next += int64(len(p))
 	s.seq++
 	return len(p), nil
@@ -79,6 +95,7 @@ type rsCall struct {
 	pan        any
 	start, end int64
 	g          int
+	gid        int64
 }
 
 type c08History struct {
@@ -108,7 +125,7 @@ func runRSHistory(c *Ctx, h c08History) {
 				if (x>>40)%11 == 0 {
 					algo = 3 + int(x>>20)%253
 				}
-				k := rsCall{algo: algo, g: g, start: st.Seq()}
+				k := rsCall{algo: algo, g: g, start: st.Seq(), gid: goid()}
 				k.pan = monCatch(func() { k.text, k.err = otp.RandomSecret(otp.Algorithm(algo)) })
 				k.end = st.Seq()
 				calls[g] = append(calls[g], k)
@@ -122,6 +139,10 @@ func runRSHistory(c *Ctx, h c08History) {
 	st.mu.Lock()
 	log := append([]handout(nil), st.log...)
 	st.mu.Unlock()
+	flat := make([]byte, st.next) // the stream as handed out, materialised once for the offline checker
+	for i := range flat {
+		flat[i] = st.byteAt(int64(i))
+	}
 	used := map[int64]int{} // stream position -> call index (+1)
 	sizes := map[int]int{0: 20, 1: 32, 2: 64}
 	ci := 0
@@ -163,13 +184,14 @@ func runRSHistory(c *Ctx, h c08History) {
 			}
 			r.Nontrivial("secret|" + k.text)
 			// stream positions handed out during this call's window
+			// the log is ordered by sequence number (log[i].seq == i): the call window is a sub-slice
 			var win []handout
 			var handed int64
-			for _, ho := range log {
-				if ho.seq >= k.start && ho.seq < k.end {
-					win = append(win, ho)
-					handed += ho.n
-				}
+			if k.start >= 0 && k.end <= int64(len(log)) && k.start <= k.end {
+				win = log[k.start:k.end]
+			}
+			for _, ho := range win {
+				handed += ho.n
 			}
 			r.Count("source_bytes_handed_out_in_call_windows", int(handed))
 			if h.Mode != 0 {
@@ -186,39 +208,60 @@ func runRSHistory(c *Ctx, h c08History) {
 				}
 				continue
 			}
-			// decompose d into segments (>= 4 bytes) of contiguous stream positions handed out in the window
-			pos := 0
-			okAll := true
-			for pos < len(d) {
-				best, bestQ := 0, int64(-1)
-				for _, ho := range win {
+			// the bytes this call received: hand-outs made to the calling goroutine inside the call window, in order.
+			// (Attribution by goroutine avoids judging a secret against bytes delivered to concurrent calls; if the
+			// library read through another goroutine the whole window is used instead.)
+			var ownPos []int64
+			for _, ho := range win {
+				if ho.gid == k.gid {
 					for q := ho.off; q < ho.off+ho.n; q++ {
-						l := 0
-						for pos+l < len(d) && inWindow(win, q+int64(l)) && st.byteAt(q+int64(l)) == d[pos+l] {
-							l++
-						}
-						if l > best {
-							best, bestQ = l, q
-						}
+						ownPos = append(ownPos, q)
 					}
 				}
-				if best < 4 && best < len(d)-pos || best == 0 {
+			}
+			if len(ownPos) == 0 {
+				for _, ho := range win {
+					for q := ho.off; q < ho.off+ho.n; q++ {
+						ownPos = append(ownPos, q)
+					}
+				}
+				r.Count("calls_judged_against_whole_window", 1)
+			}
+			// decompose d into in-order segments (>= 4 bytes, or the remainder) of the received bytes
+			pos, from := 0, 0
+			okAll := true
+			for pos < len(d) {
+				best, bestI := 0, -1
+				for i := from; i < len(ownPos); i++ {
+					l := 0
+					for pos+l < len(d) && i+l < len(ownPos) && flat[ownPos[i+l]] == d[pos+l] {
+						l++
+					}
+					if l > best {
+						best, bestI = l, i
+					}
+					if best == len(d)-pos {
+						break
+					}
+				}
+				if best == 0 || (best < 4 && best < len(d)-pos) {
 					okAll = false
 					break
 				}
 				for i := 0; i < best; i++ {
-					p := bestQ + int64(i)
+					p := ownPos[bestI+i]
 					if prev, dup := used[p]; dup {
 						viol("source-byte-reused", "a byte of the random source feeds two secrets (or one secret twice)", k, "each source byte used once", fmt.Sprintf("stream position %d already used by call #%d", p, prev))
-						okAll = true
 					}
 					used[p] = ci
 				}
 				r.Count("source_segments_matched", 1)
 				pos += best
+				from = bestI + best // in order: a later part of the secret comes from later received bytes
 			}
 			if !okAll {
-				viol("not-from-source", "the secret's bytes are not (unmodified) bytes handed out by the random source during the call", k, "bytes of the recording stream", hexs(d))
+				// distinguish "bytes of another call" from "not source bytes at all" for the witness
+				viol("not-from-source", "the secret's bytes are not (unmodified, in order, each once) the bytes the random source delivered to this call", k, "bytes received by this call", hexs(d))
 			}
 		}
 	}
@@ -235,15 +278,6 @@ func runRSHistory(c *Ctx, h c08History) {
 		}
 		r.Sample(map[string]any{"history": h, "first_calls": ex, "source_reads": len(log)})
 	}
-}
-
-func inWindow(win []handout, p int64) bool {
-	for _, ho := range win {
-		if p >= ho.off && p < ho.off+ho.n {
-			return true
-		}
-	}
-	return false
 }
 
 var _ io.Reader = (*recStream)(nil)
